@@ -269,4 +269,106 @@ theorem C07_optimal (base : List Fml) (g : Goal) (mi : Option Nat) (mt : Int) (a
         rw [hb] at hb2; injection hb2 with hb2; subst hb2
         rw [hval]; exact h2 v vs hv ρ' hρ'
 
+/-! ### the bound-stop exit and the weighted sum -/
+
+/-- if the loop stops because the declared bound was reached, the returned model attains that bound -/
+theorem incLoop_bound (base : List Fml) (g : Goal) (mi : Option Nat) (mt : Int) :
+    ∀ (answers : List (Answer × Int)) (l : LoopSt), l.exit ≠ "bound" →
+      (incLoop base g mi mt answers l).exit = "bound" →
+      ∃ ρ, (incLoop base g mi mt answers l).best = some ρ ∧ g.bound = some (ρ.i g.target) := by
+  intro answers
+  induction answers with
+  | nil =>
+      intro l hne h
+      simp only [incLoop] at h
+      split at h <;> simp at h <;> exact absurd h hne
+  | cons ad rest ih =>
+      intro l hne h
+      obtain ⟨a, d⟩ := ad
+      simp only [incLoop] at h ⊢
+      by_cases h1 : iterExceeded mi (l.iter + 1) = true
+      · simp [h1] at h
+      · simp only [h1, Bool.false_eq_true, if_false] at h ⊢
+        cases a with
+        | unsat => simp at h
+        | unknown => simp at h
+        | sat ρ =>
+            simp only at h ⊢
+            by_cases h2 : (l.found base g ρ d).total > mt
+            · simp [h2] at h
+            · simp only [h2, if_false] at h ⊢
+              by_cases h3 : (g.bound == some (ρ.i g.target)) = true
+              · simp only [h3, if_true]
+                exact ⟨ρ, rfl, by simpa using h3⟩
+              · simp only [h3, Bool.false_eq_true, if_false] at h ⊢
+                by_cases h4 : (nextThree l.three (l.found base g ρ d).total mt).2 = true
+                · simp [h4] at h
+                · simp only [h4, Bool.false_eq_true, if_false] at h ⊢
+                  exact ih _ (by simpa [LoopSt.pushed, LoopSt.found] using hne) h
+
+/-- **C07 (bound stop).** If the incremental loop stops because the objective reached its declared bound,
+    the returned model satisfies the problem's assertions and attains that bound; hence, whenever the declared
+    bound is a true bound of the objective over the admitted interpretations (what `bounds=` promises), the
+    returned model is optimal. -/
+theorem C07_bound_stop (base : List Fml) (g : Goal) (mi : Option Nat) (mt : Int) (answers : List (Answer × Int))
+    (hcons : ∀ p ∈ (incLoop base g mi mt answers {}).seen, ConsistentAns p.1 p.2)
+    (hexit : (incLoop base g mi mt answers {}).exit = "bound") :
+    ∃ ρ b, (incLoop base g mi mt answers {}).best = some ρ ∧ Sat ρ base ∧ g.bound = some b ∧ ρ.i g.target = b ∧
+      ((∀ ρ', Sat ρ' base → g.noWorse b (ρ'.i g.target)) →
+        ∀ ρ', Sat ρ' base → g.noWorse (ρ.i g.target) (ρ'.i g.target)) := by
+  obtain ⟨ρ, hb, hbound⟩ := incLoop_bound base g mi mt answers {} (by simp) hexit
+  have hany := (C07_anytime base g mi mt answers hcons).1 ρ hb
+  refine ⟨ρ, ρ.i g.target, hb, hany.1, hbound, rfl, ?_⟩
+  intro htrue ρ' hρ'
+  exact htrue ρ' hρ'
+
+/-- the weighted sum of the objectives' targets -/
+noncomputable def weightedSum (os : List Objective) (ρ : Env) : Int :=
+  (os.map (fun o => o.weight * o.target.eval ρ)).sum
+
+theorem evalSum_weighted (ρ : Env) (os : List Objective) :
+    Term.evalSum ρ (os.map (fun o => Term.mul (numT o.weight) o.target)) = weightedSum os ρ := by
+  unfold weightedSum
+  induction os with
+  | nil => simp [Term.evalSum]
+  | cons o rest ih =>
+      simp only [List.map_cons, Term.evalSum, List.sum_cons, Term.eval, numT]
+      simp only [numT] at ih
+      rw [ih]
+
+/-- **C07 (weighted sum).** With several objectives and the incremental optimiser (or the built-in one in
+    `weight` priority mode), the variable the optimiser works on equals, in every interpretation admitted by
+    `initialize`, the weighted sum of the objectives' targets — so `C07_optimal` / `C07_bound_stop` /
+    `C07_anytime` for the goal installed by `create_objective` are statements about that weighted sum. -/
+theorem C07_weighted (cfg : Config) (st : State) (ρ : Env) (hρ : Sat ρ (initFmls cfg st))
+    (hmany : st.objectives.length > 1) (hmode : cfg.optimize = false ∨ cfg.priority = "weight") :
+    ρ.i (.ind "EquivalentIndicator") = weightedSum st.objectives ρ := by
+  have hcond : (decide (st.objectives.length > 1) && (!cfg.optimize || cfg.priority == "weight")) = true := by
+    rcases hmode with h | h <;> simp [hmany, h]
+  have hmem : ∀ f ∈ objectiveFmls cfg st, f.eval ρ := by
+    intro f hf
+    apply hρ
+    unfold initFmls
+    exact List.mem_append_right _ hf
+  unfold objectiveFmls at hmem
+  rw [if_pos hcond] at hmem
+  have h1 := hmem _ (List.mem_cons_self ..)
+  have h2 := hmem _ (List.mem_cons_of_mem _ (List.mem_cons_self ..))
+  simp only [Fml.eval, Term.eval] at h1 h2
+  rw [h2, h1, evalSum_weighted]
+
+/-- … and that variable is the target of the goal the solver installs -/
+theorem C07_weighted_goal (cfg : SConfig) (st : State) (g : Goal) (hmany : st.objectives.length > 1)
+    (hg : mkGoal cfg st = some g) : g.target = .ind "EquivalentIndicator" := by
+  unfold mkGoal at hg
+  match hos : st.objectives with
+  | [] => rw [hos] at hmany; simp at hmany
+  | [o] => rw [hos] at hmany; simp at hmany
+  | o1 :: o2 :: rest =>
+      rw [hos] at hg
+      simp only at hg
+      split at hg
+      · simp only [Option.some.injEq] at hg; rw [← hg]
+      · simp at hg
+
 end PS
